@@ -1,6 +1,7 @@
 (* C13 — A later barrier stage sees an event only after the previous stage finished it. *)
 From Coq Require Import Arith Lia.
 From DC Require Import Disruptor.Pipeline.
+From DC Require Disruptor.HB.
 
 Theorem C13_stage_order : forall N H stage last s h i a g,
   reachable N H stage last s -> h < H -> g < H -> hp s h = HBatch i a -> S (stage g) = stage h -> i <= done s g.
@@ -24,6 +25,20 @@ Theorem C13_no_stage_is_lapped : forall N H stage last
   reachable N H stage last s -> pp s = PFill q e m -> forall h, h < H -> q <= done s h + N.
 Proof. exact no_overwrite_before_consumption. Qed.
 
+(* stage order with cursors read one at a time and stale loads allowed (Disruptor/HB.v): clause 4 is "every handler
+   of every earlier stage has returned from i", clause 5 "no later stage has touched it" *)
+Theorem C13_stage_order_percursor_stale_reads : forall N H stage last
+  (N_pos : 1 <= N)
+  (stage_le : forall h, h < H -> stage h <= last)
+  (stage_nonempty : forall k, k <= last -> exists h, h < H /\ stage h = k) s h i a,
+  HB.reachable N H stage last s -> h < H -> HB.hp s h = HB.HBatch i a ->
+  i = S (HB.done s h) /\
+  i <= HB.cursor s /\ i < HB.fill_ptr s /\
+  (forall g, g < H -> stage g < stage h -> i <= HB.done s g) /\
+  (forall g, g < H -> stage h < stage g -> HB.done s g < i) /\ HB.fill_ptr s <= i + N.
+Proof. exact HB.hb_delivery. Qed.
+
 Print Assumptions C13_stage_order.
+Print Assumptions C13_stage_order_percursor_stale_reads.
 Print Assumptions C13_sees_earlier_stages_only.
 Print Assumptions C13_no_stage_is_lapped.
